@@ -466,13 +466,13 @@ def sem_alu2(m: Ref, mn: str, ops: List[Tuple[Any, ...]]) -> None:
             if mn == "ADD":
                 r = a + b
                 m.set(dst[1], r)
+                # 20 significant bits: carry out of bit 19 sets C, Z is taken from the 20-bit result (maintainers'
+                # test test_add_regpair_20bit_carry_and_zero: X=FFFFF + Y=1 -> X=0, C=1, Z=1; the README rows treat
+                # all r3 alike)
+                m.set_cz(int(r > M20), int((r & M20) == 0))
                 if r > M20:
-                    m.set_cz(None, None)
-                    m.c = None
-                    m.z = None
-                    m.labels.append("r3-add-carries-out-of-20-bits:flags-unchecked")
-                else:
-                    m.set_cz(0, int(r == 0))
+                    m.labels.append("r3-add-carries-out-of-20-bits")
+                    m.nt.append("carry")
             else:
                 r = a - b
                 m.set(dst[1], r)
@@ -579,12 +579,11 @@ def sem_unary(m: Ref, mn: str, ops: List[Tuple[Any, ...]]) -> None:
     if mn in ("INC", "DEC"):
         if w == 3:
             r = (a + 1) if mn == "INC" else (a - 1)
+            # 20 significant bits: FFFFF + 1 -> 00000 with Z = 1 (maintainers' test test_inc_reg3_x_wraps_20bit pins it
+            # for X; the README 'INC r' row and REG3_20BIT_REGS treat X, Y, U, S alike)
             if r > M20:
-                z = None       # 20- vs 24-bit reading differ (appendix B) -> Z not asserted
-                m.z = None
-                m.labels.append("r3-inc-wraps-20-bits:Z-unchecked")
-            else:
-                z = int((r & M20) == 0)
+                m.labels.append("r3-inc-wraps-20-bits")
+            z = int((r & M20) == 0)
             r &= M20
         else:
             r = ((a + 1) if mn == "INC" else (a - 1)) & MASK[w]
